@@ -145,3 +145,11 @@ pub broadcast group string_eq { ax_string_str2_eq_spec, ax_string_str2_eq_def, a
 // <[T]>::contains (std): true iff some element compares equal
 pub assume_specification<T: PartialEq>[<[T]>::contains](s: &[T], x: &T) -> (r: bool)
     ensures <T as PartialEqSpec<T>>::obeys_eq_spec() ==> r == exists|i: int| 0 <= i < s@.len() && <T as PartialEqSpec<T>>::eq_spec(#[trigger] &s@[i], x);
+
+// HashSet::from([T; N]) (std): the set of the array's elements
+pub assume_specification<T: std::cmp::Eq + std::hash::Hash, const N: usize>[<HashSet<T> as std::convert::From<[T; N]>>::from](arr: [T; N]) -> (r: HashSet<T>)
+    ensures r@ == arr@.to_set();
+
+// machine-size fact: the entries of a hash set and of a vector live in one address space (each entry takes more than one byte)
+pub broadcast axiom fn ax_set_vec_len_bound<T>(a: HashSet<String>, v: Vec<T>)
+    ensures #[trigger] a@.len() + #[trigger] v@.len() < usize::MAX;
